@@ -106,7 +106,9 @@ def run(ctx):
     # 4. channel file removal
     r4 = rep.rule('C02.4-channel-file-removal', 'R-GUARD', 'job_close: a channel file is unlinked only after it was read to EOF, with no recipient outstanding and no delivery referencing the job')
     attach(r4, qsend.analyse_job_close(db, rep), prefixes=['jc:'])
-    r4.expect_min(2)
+    # numtodo == 0 means "every recipient read so far is done" only if every T record is counted before its delivery may be refused
+    attach(r4, qsend.analyse_pass_dochan(db, rep), only={'pass:numtodo-counted-before-del_start', 'pass:T-record-starts-one-delivery-attempt', 'pass:flaghiteof-only-at-end-of-file'})
+    r4.expect_min(5)
 
     # 5. message removal
     r5 = rep.rule('C02.5-message-removal', 'R-ORDER', 'messdone/injectbounce: info is unlinked only after both channel files and todo are gone and the bounce was handled; bounce/<n> removed only after the notice was queued; foop request after info is gone')
